@@ -1,5 +1,176 @@
+(* C08 — property theorems only.  Every proof is `exact <lemma>` or a closed computation (refutation witness /
+   finite generated table); Print Assumptions follows each.
+   Reading guide.  parse_jws / parse_jwt (C08/Model.v) are the executable model of jose.ParseJWS and jwt.Parse
+   (= didsignjwt.VerifyJWT with the VDR resolver) that the correspondence runs against /repo on every check.
+   The theorems hold for EVERY JSON header decoder `ph`, EVERY key resolver `rs`, EVERY assignment `sm` of a meaning
+   to signature byte strings (ideal signatures: a byte string is a signature of at most one key/procedure/message)
+   and every claims decoder `po`; tokens, detached payloads and verifier configurations are arbitrary. *)
 From Coq Require Import List NArith String Bool.
 Import ListNotations.
-From VF Require Import C08.Types gen.Gen_C08 C08.Model.
-Theorem placeholder : True. Proof. exact I. Qed.
-Print Assumptions placeholder.
+From VF Require Import common.Base64 C08.Types gen.Gen_C08 C08.Model C08.Proofs.
+Local Open Scope N_scope.
+Local Open Scope list_scope.
+
+(* FULL STATEMENT.  If a signature-checking verifier (jwt.NewVerifier over any resolver, jwt.GetVerifier for any
+   key) accepts a compact token, then the token is hseg.pseg.sseg (no further '.'), the header segment decodes to
+   a header naming a string alg, the key is the one the kid resolves to (resp. the configured one), the PUBLISHED
+   meaning of alg is (family of that key, procedure p), and the signature bytes are a signature by exactly that
+   key with exactly that procedure over   received header segment || '.' || payload part,   where for an attached
+   payload the payload segment is the canonical encoding of the payload. *)
+Theorem accept_sound : forall ph rs sm c det tok h payload,
+  sig_checking c ->
+  parse_jws ph rs sm Fixed c det tok = Accept h payload ->
+  exists hseg pseg sseg hb alg k p sg,
+    tok = hseg ++ dot :: pseg ++ dot :: sseg /\ ~ In dot hseg /\ ~ In dot pseg /\ ~ In dot sseg /\
+    split_dot tok = [hseg; pseg; sseg] /\
+    b64dec hseg = Some hb /\ ph hb = Some h /\
+    h_alg h = JS alg /\ key_for rs c h k /\ alg_spec alg = Some (pk_fam k, p) /\
+    b64dec sseg = Some sg /\ sm sg = SBy (pk_id k) p (signed_bytes h hseg payload) /\
+    payload_received det pseg payload.
+Proof. exact jws_accept_sound. Qed.
+Print Assumptions accept_sound.
+
+(* the same for jwt.Parse / didsignjwt.VerifyJWT: they accept only what ParseJWS accepted *)
+Theorem jwt_accept_sound : forall ph rs sm po c ig det tok h payload,
+  sig_checking c ->
+  parse_jwt ph rs sm po Fixed c ig det tok = Accept h payload ->
+  accepted_facts ph rs sm c det tok h payload.
+Proof. intros ph rs sm po c ig det tok h payload SC H. exact (jws_accept_sound ph rs sm c det tok h payload SC (jwt_accept_jws ph rs sm po c ig det tok h payload H)). Qed.
+Print Assumptions jwt_accept_sound.
+
+(* exact received bytes: with an attached payload (and b64 not false) the signature covers literally the first
+   two segments of the token as received *)
+Theorem accept_signs_received_bytes : forall ph rs sm c tok h payload,
+  sig_checking c ->
+  parse_jws ph rs sm Fixed c None tok = Accept h payload -> h_b64 h <> JB false ->
+  exists hseg pseg sseg k p sg,
+    tok = hseg ++ dot :: pseg ++ dot :: sseg /\ b64dec sseg = Some sg /\ key_for rs c h k /\
+    sm sg = SBy (pk_id k) p (hseg ++ dot :: pseg).
+Proof. intros ph rs sm c tok h payload SC H. exact (received_bytes_signed ph rs sm c tok h payload (jws_accept_sound ph rs sm c None tok h payload SC H)). Qed.
+Print Assumptions accept_signs_received_bytes.
+
+(* unsigned tokens are rejected: alg none, and an empty signature (no key signs with the empty byte string) *)
+Theorem rejects_unsigned : forall ph rs sm c det tok h payload,
+  sig_checking c -> (forall k p m, sm [] <> SBy k p m) ->
+  parse_jws ph rs sm Fixed c det tok = Accept h payload ->
+  h_alg h <> JS "none" /\ b64dec (nth 2 (split_dot tok) []) <> Some [].
+Proof. intros ph rs sm c det tok h payload SC E H. exact (accepted_not_unsigned ph rs sm c det tok h payload E (jws_accept_sound ph rs sm c det tok h payload SC H)). Qed.
+Print Assumptions rejects_unsigned.
+
+(* algorithm/key agreement: whatever key the kid resolves to, an accepted token's alg means that key's family *)
+Theorem alg_matches_resolved_key : forall ph rs sm c det tok h payload alg k,
+  sig_checking c ->
+  parse_jws ph rs sm Fixed c det tok = Accept h payload ->
+  h_alg h = JS alg -> key_for rs c h k ->
+  exists p, alg_spec alg = Some (pk_fam k, p).
+Proof. intros ph rs sm c det tok h payload alg k SC H. exact (accepted_alg_matches_key ph rs sm c det tok h payload alg k (jws_accept_sound ph rs sm c det tok h payload SC H)). Qed.
+Print Assumptions alg_matches_resolved_key.
+
+(* any altered header or payload byte is rejected: two accepted tokens that carry the same signature bytes are
+   identical in their header and payload segments, byte for byte (attached payloads) ... *)
+Theorem header_payload_exact : forall ph rs sm c1 c2 t1 t2 h1 h2 p1 p2,
+  sig_checking c1 -> sig_checking c2 ->
+  parse_jws ph rs sm Fixed c1 None t1 = Accept h1 p1 ->
+  parse_jws ph rs sm Fixed c2 None t2 = Accept h2 p2 ->
+  (exists sg, b64dec (nth 2 (split_dot t1) []) = Some sg /\ b64dec (nth 2 (split_dot t2) []) = Some sg) ->
+  nth 0 (split_dot t1) [] = nth 0 (split_dot t2) [] /\ nth 1 (split_dot t1) [] = nth 1 (split_dot t2) [] /\ p1 = p2.
+Proof.
+  intros ph rs sm c1 c2 t1 t2 h1 h2 p1 p2 S1 S2 H1 H2.
+  exact (same_sig_same_token_attached ph rs sm c1 c2 t1 t2 h1 h2 p1 p2
+           (jws_accept_sound ph rs sm c1 None t1 h1 p1 S1 H1) (jws_accept_sound ph rs sm c2 None t2 h2 p2 S2 H2)).
+Qed.
+Print Assumptions header_payload_exact.
+
+(* ... and for detached payloads the header segments and the detached payload bytes are identical *)
+Theorem detached_payload_exact : forall ph rs sm c1 c2 b1 r1 b2 r2 t1 t2 h1 h2 p1 p2,
+  sig_checking c1 -> sig_checking c2 -> Forall byte_ok (b1 :: r1) -> Forall byte_ok (b2 :: r2) ->
+  parse_jws ph rs sm Fixed c1 (Some (b1 :: r1)) t1 = Accept h1 p1 ->
+  parse_jws ph rs sm Fixed c2 (Some (b2 :: r2)) t2 = Accept h2 p2 ->
+  (exists sg, b64dec (nth 2 (split_dot t1) []) = Some sg /\ b64dec (nth 2 (split_dot t2) []) = Some sg) ->
+  nth 0 (split_dot t1) [] = nth 0 (split_dot t2) [] /\ b1 :: r1 = b2 :: r2.
+Proof.
+  intros ph rs sm c1 c2 b1 r1 b2 r2 t1 t2 h1 h2 p1 p2 S1 S2 B1 B2 H1 H2.
+  exact (same_sig_same_detached ph rs sm c1 c2 b1 r1 b2 r2 t1 t2 h1 h2 p1 p2 B1 B2
+           (jws_accept_sound ph rs sm c1 _ t1 h1 p1 S1 H1) (jws_accept_sound ph rs sm c2 _ t2 h2 p2 S2 H2)).
+Qed.
+Print Assumptions detached_payload_exact.
+
+(* no token, header, kid or resolver makes the verifiers panic *)
+Theorem never_crashes : forall ph rs sm c det tok, parse_jws ph rs sm Fixed c det tok <> Crash.
+Proof. exact jws_no_crash. Qed.
+Print Assumptions never_crashes.
+
+(* unsecured JWTs only through the explicit unsecured verifier, which takes nothing else *)
+Theorem unsecured_only_none : forall h sg, verify_unsecured h sg = VOk -> h_alg h = JS "none" /\ sg = [].
+Proof. exact unsecured_inv. Qed.
+Print Assumptions unsecured_only_none.
+
+(* THE GENERATED TABLES (regenerated from /repo by executing the verifiers on every run): every accepted
+   (alg, key family, representation, procedure) agrees with the published meaning of the alg name; only
+   algs with a published meaning are registered, `none` and the empty name are not; GetVerifier binds each JWK
+   family to an alg of that family. *)
+Theorem alg_table_sound : forall a f r p, In (a, f, r, p) acc -> alg_spec a = Some (f, p).
+Proof. exact acc_sound. Qed.
+Print Assumptions alg_table_sound.
+
+Theorem registered_algs_sound :
+  forallb (fun a => match alg_spec a with Some _ => true | None => false end) registered = true /\
+  mem_str "none" registered = false /\ mem_str "" registered = false.
+Proof. exact (conj registered_checked none_unregistered). Qed.
+Print Assumptions registered_algs_sound.
+
+Theorem single_table_sound :
+  forallb (fun e : fam * string => let '(f, a) := e in
+             match alg_spec a with Some (f', _) => fam_eqb f f' | None => false end) single = true.
+Proof. exact single_checked. Qed.
+Print Assumptions single_table_sound.
+
+(* ---------- a concrete world for witnesses and non-vacuity ---------- *)
+Definition w_hdr (alg kid : string) : list N -> option hview :=
+  fun _ => Some {| h_alg := JS alg; h_kid := JS kid; h_b64 := JAbsent; h_typ := JAbsent; h_cty := JAbsent |}.
+Definition w_key (f : fam) (r : repr) : pkey := {| pk_fam := f; pk_repr := r; pk_id := 1 |}.
+Definition w_rs (k : pkey) : string -> string -> option pkey := fun _ _ => Some k.
+Definition w_sm (p : sproc) (m : string) : list N -> sigv := fun bs => match bs with [] => SEmpty | _ => SBy 1 p (chars m) end.
+
+(* HISTORICAL REFUTATIONS — the code as found (before the three fix: commits); witnesses in corpus/C08. *)
+(* DESIGN s11 #6: a payload segment altered within its unused trailing bits ("QQ" -> "QR") or by a line break was
+   accepted; the repaired code rejects both at the payload stage *)
+Theorem payload_exact_asis_refuted :
+  let ph := w_hdr "EdDSA" "did:x#k" in let rs := w_rs (w_key FEd25519 RRaw) in let sm := w_sm PEd "e30.QQ" in
+  parse_jws ph rs sm AsIs VBasic None (chars "e30.QQ.QQ") = parse_jws ph rs sm AsIs VBasic None (chars "e30.QR.QQ") /\
+  (exists h, parse_jws ph rs sm AsIs VBasic None (chars "e30.QR.QQ") = Accept h [65]) /\
+  (exists h, parse_jws ph rs sm AsIs VBasic None [101; 51; 48; 46; 81; 10; 81; 46; 81; 81] = Accept h [65]) /\
+  parse_jws ph rs sm Fixed VBasic None [101; 51; 48; 46; 81; 10; 81; 46; 81; 81] = Reject StPay /\
+  parse_jws ph rs sm Fixed VBasic None (chars "e30.QR.QQ") = Reject StPay.
+Proof. vm_compute. repeat split; eexists; reflexivity. Qed.
+Print Assumptions payload_exact_asis_refuted.
+
+(* an ES256 token signed with a secp256k1 key was accepted when the kid resolved to that key as a JWK *)
+Theorem alg_matches_key_asis_refuted :
+  let ph := w_hdr "ES256" "did:x#k" in let rs := w_rs (w_key FSecp256k1 RJwk) in let sm := w_sm (PEc H256) "e30.QQ" in
+  (exists h, parse_jws ph rs sm AsIs VBasic None (chars "e30.QQ.QQ") = Accept h [65]) /\
+  alg_spec "ES256" = Some (FP256, PEc H256) /\
+  parse_jws ph rs sm Fixed VBasic None (chars "e30.QQ.QQ") = Reject StVerif.
+Proof. vm_compute. repeat split; eexists; reflexivity. Qed.
+Print Assumptions alg_matches_key_asis_refuted.
+
+(* DESIGN s11 #4: a kid without '#' made the verifier panic *)
+Theorem never_crashes_asis_refuted :
+  let ph := w_hdr "EdDSA" "did:x" in let rs := w_rs (w_key FEd25519 RRaw) in let sm := w_sm PEd "e30.QQ" in
+  parse_jws ph rs sm AsIs VBasic None (chars "e30.QQ.QQ") = Crash /\
+  parse_jws ph rs sm Fixed VBasic None (chars "e30.QQ.QQ") = Reject StVerif.
+Proof. vm_compute. split; reflexivity. Qed.
+Print Assumptions never_crashes_asis_refuted.
+
+(* NON-VACUITY: the hypotheses of the theorems are met — a token is accepted by both kinds of signature-checking
+   verifier, attached and detached, and the same token with one header character changed is rejected *)
+Example accept_nonvacuous :
+  let ph := w_hdr "ES256" "did:x#k" in let k := w_key FP256 RJwk in let rs := w_rs k in let sm := w_sm (PEc H256) "e30.QQ" in
+  (exists h, parse_jws ph rs sm Fixed VBasic None (chars "e30.QQ.QQ") = Accept h [65]) /\
+  (exists h, parse_jwt ph rs sm (fun _ => true) Fixed (VSingle k) false None (chars "e30.QQ.QQ") = Accept h [65]) /\
+  (exists h, parse_jws ph rs sm Fixed VBasic (Some [65]) (chars "e30..QQ") = Accept h [65]) /\
+  parse_jws ph rs sm Fixed VBasic None (chars "e31.QQ.QQ") = Reject StVerif /\
+  parse_jws ph rs sm Fixed VBasic (Some [66]) (chars "e30..QQ") = Reject StVerif /\
+  parse_jws ph rs sm Fixed VBasic None (chars "e30.QQ.") = Reject StVerif /\
+  sig_checking VBasic /\ (forall k p m, sm [] <> SBy k p m).
+Proof. vm_compute. repeat split; try (eexists; reflexivity); discriminate. Qed.
